@@ -211,6 +211,14 @@ connect_cpu(struct bay *bay, struct nosv_cpu *mcpu)
 		return -1;
 	}
 
+	/* select_tr() also depends on the task type: select again when it
+	 * changes without a change in the subsystem (task paused or resumed
+	 * while in the task body) */
+	if (mux_add_reselect(&bcpu->mux0, tt) != 0) {
+		err("mux_add_reselect tt failed");
+		return -1;
+	}
+
 	/* Emit unknown subsystem on NULL */
 	mux_set_default(&bcpu->mux0, value_int64(ST_UNKNOWN_SS));
 
